@@ -25,6 +25,7 @@
 #define MAXE 3
 #define MAXR 3                    /* filler + 2 user requests */
 #define T0 1700000000ULL
+#define CLK_E3R2_T 1
 
 /* =================================================================================================== part (a) */
 enum { O_VALID = 0, O_STATUS, O_ERRPDU, O_TIMEOUT, O_CONNFAIL, O_CACHEFULL, O_N };
@@ -403,7 +404,8 @@ static uint64_t a_state_key(void) {
 			hr = (KSI_HighAvailabilityRequest *)q->userCtx;
 			if (hr) { h = mix(h, hr->expectedRespCount); h = mix(h, (uint64_t)(req_index(hr->asyncHandle) + 1)); }
 		}
-		h = mix(h, tc->sockfd >= 0); h = mix(h, tc->socketReady); h = mix(h, tc->inLen); h = mix(h, tc->roundCount); h = mix(h, age(tc->roundStartAt) > 0);
+		/* the per-second throttle (8 requests per round) is never reached with at most 3 requests: round counters are left out */
+		h = mix(h, tc->sockfd >= 0); h = mix(h, tc->socketReady); h = mix(h, tc->inLen);
 		h = mix(h, KSI_AsyncHandleList_length(tc->reqQueue)); h = mix(h, KSI_OctetStringList_length(tc->respQueue));
 		h = mix(h, c ? 1 : 0);
 		if (c) { h = mix(h, c->out.n - c->parsed_out); h = mix(h, c->in.n - c->in_off); h = vf_fnv(c->in.p + c->in_off, c->in.n - c->in_off, h); }
@@ -415,7 +417,7 @@ static uint64_t a_state_key(void) {
 	for (k = 0; k < W.nreq; k++) {
 		sreq_t *r = &W.req[k];
 		h = mix(h, (uint64_t)r->h->state); h = mix(h, (uint64_t)r->h->err); h = mix(h, (uint64_t)(r->completed | r->filler << 1)); h = mix(h, (uint64_t)r->completion_state); h = mix(h, (uint64_t)r->nnotice);
-		h = mix(h, age(r->add_time));
+		{ int uns = 0; for (e = 0; e < W.nE; e++) if (r->s[e].forwarded && !r->s[e].sent && !r->s[e].connfail) uns = 1; h = mix(h, uns ? age(r->add_time) : 99); }   /* matters for the send timeout only */
 		for (e = 0; e < W.nE; e++) {
 			ssub_t *s = &r->s[e];
 			int back = s->consumed ? W.round - s->arrival_round : 0;
@@ -448,12 +450,13 @@ static void hist_name(const unsigned char *ev, int n, char *out) { int i; for (i
 /* canonical order inside a segment between two runs: answers of different endpoints, additions and clock jumps
  * commute (the client looks at its sockets and at the clock only inside run()), so answers are generated last and in
  * ascending endpoint order, and a clock jump is never doubled */
+static int g_clock_max;
 static int canonical(const unsigned char *ev, int n, int next) {
 	int i, last = -1, has_ans = 0;
 	for (i = n - 1; i >= 0 && ev[i] != EV_RUN; i--) { if (last < 0) last = ev[i]; if (ev[i] >= EV_ANS0 && ev[i] <= EV_ANS2) has_ans = 1; }
 	if (next == EV_RUN) return 1;
 	if (next == EV_ADD) return !has_ans;
-	if (next == EV_CLOCK) return !has_ans && last != EV_CLOCK;
+	if (next == EV_CLOCK) { int np = 0; for (i = 0; i < n; i++) np += ev[i] == EV_CLOCK; return np < g_clock_max && !has_ans && last != EV_CLOCK; }
 	if (next >= EV_ANS0 && next <= EV_ANS2) return !(last >= EV_ANS0 && last <= EV_ANS2 && next < last);
 	return 0;
 }
@@ -471,7 +474,7 @@ static int a_replay(const unsigned char *ev, int n) {
 	return 1;
 }
 
-static void a_case(int nE, int nR, const int *out, long max_states, int max_len) {
+static void a_case(int nE, int nR, const int *out, long max_states, int max_len, int clock_max) {
 	node_t *queue;
 	size_t qh = 0, qt = 0, qcap = 1 << 12;
 	node_t root;
@@ -481,6 +484,7 @@ static void a_case(int nE, int nR, const int *out, long max_states, int max_len)
 	memset(seen, 0, ((size_t)1 << SEEN_BITS) * sizeof *seen);
 	n_states = n_transitions = n_traces = n_pruned = n_maxdepth = 0;
 	g_case_fails = 0;
+	g_clock_max = clock_max;
 	memset(&root, 0, sizeof root);
 	for (e = 0; e < nE; e++) any_full |= out[e] == O_CACHEFULL;
 	if (any_full) {
@@ -525,6 +529,7 @@ static void a_case(int nE, int nR, const int *out, long max_states, int max_len)
 	vf_count("histories_cut_at_length_bound", n_maxdepth);
 	vf_max("max_states_per_case", n_states);
 	vf_obs("states=%ld traces=%ld", n_states, n_traces);
+	if (getenv("C15_STATS")) fprintf(stderr, "%s: states %ld traces %ld transitions %ld pruned %ld cut %ld\n", vf_case_name(), n_states, n_traces, n_transitions, n_pruned, n_maxdepth);
 }
 
 static void part_a(void) {
@@ -540,10 +545,12 @@ static void part_a(void) {
 			long max_states = 200000;
 			for (e = 0; e < nE; e++) { out[e] = c % O_N; c /= O_N; nm[e] = OCH[out[e]]; }
 			nm[nE] = 0;
-			/* history length bound after the fixed prefix (the search normally ends earlier: the reachable state space is finite) */
-			max_len = VF_THOROUGH ? 40 : (nE == 3 && nR == 2 ? 9 : 40);
-			if (!vf_case_begin("ha:e%d:r%d:%s:len%d", nE, nR, nm, max_len)) continue;
-			a_case(nE, nR, out, max_states, max_len);
+			/* number of clock jumps per history (timeouts are in addition exercised by the drain from every state) */
+			int clk = (nE <= 2 && !(nE == 2 && nR == 2)) ? 9 : VF_THOROUGH ? (nE == 3 && nR == 2 ? CLK_E3R2_T : 9) : (nE == 3 && nR == 2 ? 0 : 1);
+			if (getenv("C15_CLK")) clk = atoi(getenv("C15_CLK"));
+			max_len = 40;            /* history length bound after the fixed prefix (never reached: the reachable state space is finite) */
+			if (!vf_case_begin("ha:e%d:r%d:%s:clk%d", nE, nR, nm, clk)) continue;
+			a_case(nE, nR, out, max_states, max_len, clk);
 			if (nE == 2 && nR == 2 && code < 2) vf_sample("part a, %d endpoints with outcomes %s, %d user requests: %ld distinct states, %ld histories replayed, %ld events executed (%s)", nE, nm, nR, n_states, n_traces, n_transitions, EV_LEGEND);
 			vf_case_end(n_traces > 1);
 		}
